@@ -769,10 +769,21 @@ pub fn c08(thorough: bool, seed: u64) -> CheckOutput {
                 // `generate()` needs a seed to be comparable
                 cfg.entropy = Entropy::Seed(rng.next());
             }
-            let inputs = vec![fuzz_bytes(&mut rng), {
+            let mut inputs = vec![fuzz_bytes(&mut rng), {
                 let n = 1500 + rng.below(3000) as usize;
                 rng.bytes(n)
             }];
+            // x2 is short enough to be used up completely; x3 = x2 plus more bytes (what a fuzzer
+            // does when it extends an input), x4 = x2 without its last bytes
+            let n_short = 8 + rng.below(24) as usize;
+            let short = rng.bytes(n_short);
+            let mut longer = short.clone();
+            let n_more = 1 + rng.below(200) as usize;
+            longer.extend(rng.bytes(n_more));
+            let shorter = short[..short.len() - 1 - rng.below(4) as usize].to_vec();
+            inputs.push(short);
+            inputs.push(longer);
+            inputs.push(shorter);
             // expensive (long) configurations run a sixth of the exhaustive histories
             let stride = if cfg.min >= 2000 { 6 } else { 1 };
             for h in ex.iter().skip(i % stride).step_by(stride) {
@@ -783,6 +794,20 @@ pub fn c08(thorough: bool, seed: u64) -> CheckOutput {
                 let len = 4 + rng.below(3) as usize;
                 let h: Vec<Call> = (0..len).map(|_| alphabet[rng.below(4) as usize].clone()).collect();
                 check_history(&cfg, &inputs, &h, acc);
+            }
+            // an input followed by an extension / a truncation of itself
+            if cfg.min < 2000 {
+                for h in [
+                    vec![Call::Arb(2), Call::Arb(3)],
+                    vec![Call::Arb(2), Call::Reset, Call::Arb(3)],
+                    vec![Call::Arb(3), Call::Arb(2)],
+                    vec![Call::Arb(2), Call::Gen, Call::Arb(3)],
+                    vec![Call::Arb(2), Call::Arb(2), Call::Arb(3), Call::Arb(4)],
+                    vec![Call::Arb(4), Call::Arb(2), Call::Arb(3)],
+                ] {
+                    check_history(&cfg, &inputs, &h, acc);
+                    acc.count("histories_with_extended_input", 1);
+                }
             }
             // histories with writes to the public configuration fields between calls: every
             // (call, write, call) and (call, reset, write, call) for this configuration, plus
@@ -814,7 +839,7 @@ pub fn c08(thorough: bool, seed: u64) -> CheckOutput {
     );
     CheckOutput {
         acc,
-        rule: "cases = (configuration, history) pairs: every history of length 1..3 over {generate, generate_from_arbitrary(x0), generate_from_arbitrary(x1), reset} (84, exhaustive) plus sampled histories of length 4..6, plus histories with writes to the public configuration fields between calls (opt-in flags, state.version, range, rate, unsafe flag; the fresh generator gets the same writes and no earlier call), for configurations drawn from the full matrix on all six protocols; every generation call of the history is compared byte-for-byte with a fresh generator given only that call; distinct = distinct (config, history); non-trivial = history has at least two generation calls".into(),
+        rule: "cases = (configuration, history) pairs: every history of length 1..3 over {generate, generate_from_arbitrary(x0), generate_from_arbitrary(x1), reset} (84, exhaustive) plus sampled histories of length 4..6, plus histories in which an input is followed by an extension or a truncation of itself, plus histories with writes to the public configuration fields between calls (opt-in flags, state.version, range, rate, unsafe flag; the fresh generator gets the same writes and no earlier call), for configurations drawn from the full matrix on all six protocols; every generation call of the history is compared byte-for-byte with a fresh generator given only that call; distinct = distinct (config, history); non-trivial = history has at least two generation calls".into(),
         extra: json!({"exhaustive_histories_up_to_length_3": exhaustive.len()}),
         assumptions: vec!["generate() is compared only with a seed set (unseeded generation is not reproducible by design)".into()],
         exhaustive: None,
@@ -1248,6 +1273,18 @@ fn c07_cases(seed: u64, n: usize) -> Vec<Config> {
             c.unsafe_mut = false;
         }
         v.push(c);
+    }
+    // recipe-steered pickles (fuzzer-bytes mode): typed opcodes on containers with several
+    // heterogeneous members, aliases, memo round trips - where a decision that iterates a
+    // hash-ordered or address-keyed container would show
+    for k in 0..n {
+        let proto = (5 - k % 6) as u8;
+        let base = Config {
+            ext: k % 2 == 0,
+            buf: k % 4 < 2,
+            ..Config::default_for(proto, Entropy::Bytes(vec![]))
+        };
+        v.push(crate::mon_trace::object_heavy(&base, mix(seed ^ 0xC07, k as u64)));
     }
     // one generation that runs for well over a second (a wall-clock cut-off would show here)
     v.push(Config {
